@@ -738,6 +738,8 @@ conditions:
 			if err := dcc.add(cc, subQuery, previousResults); err != nil {
 				return queryPart{}, err
 			}
+		case *query.ImpossibleCondition:
+			return queryPart{}, nil
 		}
 	}
 	if minIDFilter == maxIDFilter {
